@@ -809,7 +809,7 @@ func (n *node) compactLog(req rsm.SSRequest, index uint64) {
 func (n *node) getCompactionIndex(req rsm.SSRequest, index uint64) (uint64, bool) {
 	if req.OverrideCompaction {
 		if req.CompactionIndex > 0 {
-			if index >= req.CompactionIndex+1 {
+			if index > req.CompactionIndex {
 				return req.CompactionIndex, true
 			}
 			return 0, false
